@@ -1348,6 +1348,7 @@ class HDF5FileUnits(Contract):
             raise ExtractionError(f'HDF5File constructor: expression kind {k} in an attribute source not understood')
 
         found = {}
+        matched_creates = set()
         for n in _walk(b):
             # <dataset>.createAttribute("Name", type, space).write(type, &source)
             if n.get('kind') != 'CXXMemberCallExpr':
@@ -1370,6 +1371,57 @@ class HDF5FileUnits(Contract):
             if key in found:
                 raise ExtractionError(f'HDF5File constructor: attribute {key} written twice')
             found[key] = (canon(n['inner'][2]), line_of(n))
+            matched_creates.add(cr.get('id'))
+        all_creates = [x.get('id') for x in _walk(b) if x.get('kind') == 'CXXMemberCallExpr' and x['inner'][0].get('kind') == 'MemberExpr' and x['inner'][0].get('name') == 'createAttribute']
+        if set(all_creates) - matched_creates:
+            raise ExtractionError(f'HDF5File constructor: {len(set(all_creates) - matched_creates)} createAttribute call(s) are not of the form <dataset>.createAttribute(name,..).write(type,&source): the attribute table has to be re-derived')
+        # the same write done through a small helper  helper(<dataset>, "Name", &source)  whose body is createAttribute(name,..).write(..,value)
+        helper_cache = {}
+
+        def is_attr_helper(nm_):
+            if nm_ in helper_cache:
+                return helper_cache[nm_]
+            ok_ = False
+            srcs = [tu]
+            try:
+                srcs.append(tc.get(self.tu, nm_))       # helpers outside namespace vfps (file-local, anonymous namespace)
+            except ExtractionError:
+                pass
+            for t_ in srcs:
+                for d_ in t_.docs:
+                    for f_ in _walk(d_):
+                        if f_.get('kind') in ('FunctionDecl', 'CXXMethodDecl') and f_.get('name') == nm_ and any(c.get('kind') == 'CompoundStmt' for c in f_.get('inner', [])):
+                            mem = set(x.get('member') or x.get('name') for x in _walk(f_) if x.get('kind') in ('MemberExpr', 'CXXDependentScopeMemberExpr'))
+                            if {'createAttribute', 'write'} <= mem:
+                                ok_ = True
+            helper_cache[nm_] = ok_
+            return ok_
+        for n in _walk(b):
+            if n.get('kind') not in ('CallExpr', 'CXXMemberCallExpr'):
+                continue
+            c_ = n['inner'][0]
+            while c_.get('kind') in ('ImplicitCastExpr', 'ParenExpr'):
+                c_ = c_['inner'][0]
+            nm = (c_.get('referencedDecl') or {}).get('name') or (c_.get('name') if c_.get('kind') == 'MemberExpr' else None)
+            args_ = n['inner'][1:]
+            if not nm or nm in ('write', 'createAttribute', 'link', 'openGroup', 'createDataSet') or len(args_) < 3:
+                continue
+            if not (any(x.get('kind') == 'MemberExpr' and x.get('name') == 'dataset' for a_ in args_ for x in _walk(a_)) and any(strlit(a_) for a_ in args_ if a_.get('kind') in ('ImplicitCastExpr', 'StringLiteral'))):
+                continue
+            if not is_attr_helper(nm):
+                continue
+            holders = [(i_, [x.get('name') for x in _walk(a_) if x.get('kind') == 'MemberExpr' and x.get('name', '').startswith('_') and x.get('name') != '_file']) for i_, a_ in enumerate(args_)]
+            holders = [(i_, h_[0]) for i_, h_ in holders if h_ and any(x.get('kind') == 'MemberExpr' and x.get('name') == 'dataset' for x in _walk(args_[i_]))]
+            names_ = [(i_, strlit(a_)) for i_, a_ in enumerate(args_) if a_.get('kind') in ('ImplicitCastExpr', 'StringLiteral') and strlit(a_)]
+            if len(holders) != 1 or len(names_) != 1:
+                raise ExtractionError(f'HDF5File constructor: call of the attribute helper {nm} at line {line_of(n)} not understood')
+            rest = [i_ for i_ in range(len(args_)) if i_ not in (holders[0][0], names_[0][0]) and args_[i_].get('kind') != 'CXXDefaultArgExpr']
+            if len(rest) != 1:
+                raise ExtractionError(f'HDF5File constructor: attribute helper {nm} takes {len(rest)} further arguments, expected the value only')
+            key = (holders[0][1], names_[0][1])
+            if key in found:
+                raise ExtractionError(f'HDF5File constructor: attribute {key} written twice')
+            found[key] = (canon(args_[rest[0]]), line_of(n))
         obls = []
         for key, want in sorted(self.EXPECT.items()):
             got = found.get(key)
